@@ -293,6 +293,7 @@ int twice() { int[] q = [3, 4]; q[1] += 1; return q[1]; }
 empty fillc(int[] q) { q[0] += 1; }
 int bumpr(int[] q) { q[0] += 100; return 1; }
 int touchg() { GR[1] = 50; return 2; }
+int addg(int v) { g += v; return g; }
 empty dump(int x, int y, const int[] r) {
     write(" x="); write(x); write(" y="); write(y); write(" g="); write(g);
     write(" r="); write(r[0]); write(','); write(r[1]); write(','); write(r[2]);
@@ -332,6 +333,8 @@ S_ATOMS = [
     'y = twice() + twice();',
     'r[0] += bumpr(r); GR[1] -= touchg(); y += GR[1];',
     'for (int i = 0; i < 2; i += 1) { bool[] bq = [true, false]; if (bq[1]) { y += 100; } bq[1] = true; byte[] yq = [\'a\', \'b\']; yq[0] += 1; y += yq[0]; }',
+    # x op= e reads x first: the right-hand side may change the global on the left
+    'g += addg(2); y -= g; g *= addg(1); y += g;',
     # a const copy of a mutable local is a value of its own
     '{ const int cy = x; const int cz = y; x += 5; y = cy * 2 + cz; x += cy; }',
 ]
@@ -457,7 +460,7 @@ empty @is_you(int n) {
     # globals materialised lazily, shadowing, by-value scalars
     ("""
 int a = 1; int b = a + 1; const int c = b * 3; byte gb = 200; bool gf = false; string gs = "glob";
-int z1[3]; bool zb[10]; byte zy[2]; string zs[2];
+int z1[3]; bool zb[10]; byte zy[2]; string zs[2]; bool zbig[2200]; byte ybig[700];
 empty touch(int a) { a += 100; b += a; }
 int shadow() { int a = 50; { int b = a + 1; a = b; } return a + b; }
 byte[] buf = ['.', '.', '.', '.', '.', '.']; int pos = 0; int[] ibuf = [0, 0, 0, 0];
@@ -470,10 +473,13 @@ int firstpos(const int[] h) { int i = -1; while (i < h.length - 1) { i += 1; if 
 empty @is_you(int n) {
     writeln(a); writeln(b); writeln(c); writeln(gb is int); writeln(gf); writeln(gs);
     touch(n); writeln(a); writeln(b); writeln(shadow()); writeln(peek()); writeln(peek2(n)); writeln(peek()); writeln(a);
+    int hi = (n - n + 2) * 1024; zbig[0] = false; zbig[7] = false; zbig[hi - 2048 + 8] = false; zbig[hi] = true; zbig[hi - 1] = false; zbig[hi + 151] = true; zbig[255] = false; zbig[256] = true;
+    writeln(zbig[0]); writeln(zbig[7]); writeln(zbig[8]); writeln(zbig[hi]); writeln(zbig[hi - 1]); writeln(zbig[hi + 151]); writeln(zbig[255]); writeln(zbig[256]); writeln(zbig.length);
+    ybig[0] = 'p'; ybig[hi / 4] = 'q'; ybig[hi / 4 + 187] = 'r'; ybig[255] = 's'; ybig[256] = 't'; write(ybig[0]); write(ybig[512]); write(ybig[699]); write(ybig[255]); writeln(ybig[256]);
     buf[pos] = nxt(); buf[pos] = nxt(); buf[pos] += nxt(); buf[pos + 1] = nxt(); writeln(buf); pos = 0; ibuf[pos] = inx(); ibuf[pos] += inx(); ibuf[pos] = inx() + ibuf[pos - 1];
     writeln(ibuf[0]); writeln(ibuf[1]); writeln(ibuf[2]); writeln(pos);
     writeln(find([4, n, 7, 9], 7)); writeln(find([n, 2], n)); writeln(find([1, 2], 5)); int ze[0]; writeln(find(ze, 1)); writeln(firstpos([0, -1, n, 5])); writeln(firstpos(ze)); writeln(firstpos([0 - n, 0]));
-    z1[0] = 2; z1[1] = n; z1[2] = 5; zb[8] = false; zb[9] = true; zy[1] = 'k'; zs[0] = gs; zs[1] = "x";
+    z1[0] = 2; z1[1] = n; z1[2] = 5; zb[8] = false; zb[9] = true; int k8 = z1[0] * 4; zb[0] = false; zb[k8] = true; zb[k8 + 1] = false; zb[k8 - 1] = true; writeln(zb[k8]); writeln(zb[9]); writeln(zb[7]); writeln(zb[0]); zb[9] = true; zb[8] = false; zy[1] = 'k'; zs[0] = gs; zs[1] = "x";
     writeln(z1[0] + z1[1] + z1[2]); writeln(zb[9]); writeln(zb[8]); write(zy[1]); writeln(zs[0]); writeln(zs[1].length);
     gb = 300 - 45; writeln(gb is int); gs = "new"; writeln(gs); gf = not gf; writeln(gf);
 }""", [['0'], ['9']]),
